@@ -651,6 +651,7 @@ class DataboxWorld(World):
         rec = self.disk[path]
         dr = rec.description_row if rec != "torn" else rng.random() < 0.5
         return {"op": "import", "out": [self._name()], "args": {"path": path, "description_row": dr,
+                                                               "start_period_only": rng.random() < 0.2,
                                                                "plan": self._gen_fault_plan(flt, reading=True)}}
 
     def _gen_slate(self, actor, rng, val, flt):
@@ -1356,6 +1357,8 @@ class DataboxWorld(World):
             if path not in self.fs.files:
                 self.disk.pop(path, None)
             self.probes["export_failed_under_fault"] += 1
+            if "close_eio" in fired:
+                self.probes["fault_surfaced_in_close"] += 1
             # a failed export changes no in-memory object
             self._check_heap("export", pred)
             self._check_bindings_unchanged("export", pred)
@@ -1425,7 +1428,13 @@ class DataboxWorld(World):
                 parts.append("description_has_newline")
             pred = ",".join(parts)
         opens_before = self.fs.totals["open"]
-        status, r, fired = self._run("import", pred, lambda: ir.Databox.from_csv_file(path, description_row=a["description_row"]), plan=plan)
+        kw = {"description_row": a["description_row"]}
+        if a.get("start_period_only"):
+            # the exported blocks are contiguous, so inferring the periods from the first one must give the same series
+            kw["start_period_only"] = True
+            pred = ",".join(x for x in (pred, "start_period_only") if x)
+            self.probes["import_start_period_only"] += 1
+        status, r, fired = self._run("import", pred, lambda: ir.Databox.from_csv_file(path, **kw), plan=plan)
         faulted = any(k not in ("short_write", "short_read") for k in fired)
         self.probes["import_opens_total"] += self.fs.totals["open"] - opens_before
         self._check_heap("import", pred)
